@@ -75,6 +75,18 @@ func hostileGenesis(r *rand.Rand, collide, ck int) *ct.GenesisState {
 	// optional fields present / absent
 	gs.BurningAndMintingPaused = &ct.BurningAndMintingPaused{Paused: r.Intn(2) == 0}
 	gs.SendingAndReceivingMessagesPaused = &ct.SendingAndReceivingMessagesPaused{Paused: r.Intn(2) == 0}
+	nilSel := r.Intn(8)
+	if collide >= 0 {
+		nilSel = 7 // the collision cases are judged by their keys alone
+	}
+	switch nilSel { // sections left out of the file altogether
+	case 0:
+		gs.BurningAndMintingPaused = nil
+	case 1:
+		gs.SendingAndReceivingMessagesPaused = nil
+	case 2:
+		gs.BurningAndMintingPaused, gs.SendingAndReceivingMessagesPaused = nil, nil
+	}
 	if r.Intn(2) == 0 {
 		gs.MaxMessageBodySize = &ct.MaxMessageBodySize{Amount: []uint64{0, 1, 132, 8000, 1 << 40}[r.Intn(5)]}
 	}
@@ -377,6 +389,18 @@ func runC17(rc *RunCtx) {
 			// near-duplicates must not be treated as collisions (they are distinct keys)
 			rc.Report(Violation{Props: []string{"C17"}, Monitor: "validate/collision", Sig: "C17:validate-rejects-distinct-keys:" + c17Lists[collide],
 				Detail: "Validate rejected a genesis whose entries all have distinct keys: " + verr.Error(), Case: c17Case(gs)})
+		}
+		// the node's JSON entry point must judge every legitimate spelling of the file like the struct
+		for v := 0; v < 4; v++ {
+			if bz, err := GenesisJSON(gs, v); err == nil && jsonCdc() != nil {
+				jerr := cctp.AppModuleBasic{}.ValidateGenesis(jsonCdc(), nil, bz)
+				rc.Cov.Assert("C17.validate-json-route-agrees")
+				rc.Cov.Cell("C17_json_route", fmt.Sprintf("validate/spelling%d/agrees=%v", v, (jerr == nil) == (verr == nil)))
+				if (jerr == nil) != (verr == nil) {
+					rc.Report(Violation{Props: []string{"C17"}, Monitor: "validate/json-route", Sig: "C17:validate-json-disagrees",
+						Detail: fmt.Sprintf("ValidateGenesis(JSON, spelling %d) err=%v but Validate() of the same genesis err=%v: %s", v, jerr, verr, trunc(string(bz), 500)), Case: c17Case(gs)})
+				}
+			}
 		}
 		// JSON route used by the node (module.go)
 		if i%10 == 0 {
